@@ -236,7 +236,11 @@ pub fn type_name(t: &mut Tape, scope: &mut Scope, cfg: &NameCfg) -> String {
         } else {
             Style::Pascal
         };
-        let n = styled(&words, style);
+        let mut n = styled(&words, style);
+        if t.chance(4) {
+            // `_Any`, `_Service`: a single leading underscore is an ordinary name
+            n = format!("_{}", n);
+        }
         if scope.try_insert(&n) {
             return n;
         }
